@@ -4,6 +4,7 @@
 pub mod api;
 pub mod bp;
 pub mod confe2e;
+pub mod consdrop;
 pub mod faults;
 pub mod framebuf;
 pub mod hbe2e;
@@ -28,6 +29,7 @@ pub fn make(name: &str) -> Option<Box<dyn Engine>> {
         "api" => Some(Box::new(api::ApiEngine::default())),
         "bp" => Some(Box::new(bp::BpEngine::default())),
         "confe2e" => Some(Box::new(confe2e::ConfE2e::default())),
+        "consdrop" => Some(Box::new(consdrop::ConsDropEngine::default())),
         "faults" => Some(Box::new(faults::FaultsEngine::default())),
         "framebuf" => Some(Box::new(framebuf::FrameBufEngine::default())),
         "hbe2e" => Some(Box::new(hbe2e::HbE2e::default())),
